@@ -583,7 +583,14 @@ class WithComponentsConstraint(AbstractConstraint):
     """
     def _testValue(self, value, idx):
         for field, constraint in self._values:
-            component = value.get(field)
+            if hasattr(value, 'getComponentByName'):
+                # a record-valued component shown to a nested
+                # WITH COMPONENTS (the outermost one sees a mapping)
+                component = value.getComponentByName(
+                    field, default=None, instantiate=False)
+
+            else:
+                component = value.get(field)
 
             # the placeholder a read leaves in an unset slot is not a
             # present component
